@@ -277,6 +277,25 @@ theorem inv_run (L : Layout) (md : Mode) (evs : List Ev) (pc pc' : PC) (s : St) 
         rw [exec_step md s m h0] at hh ⊢
         exact ih pc1 _ (inv_step L pc pc1 s m hi hn) hp hh
 
+/-! ### `trace` (what the line driver prints) versus `run` / `exec` (what the theorems speak about) -/
+
+theorem trace_append (md : Mode) (s : St) (a b : List Ev) :
+    trace md s (a ++ b) = trace md s a ++ trace md (run md s a).1 b := by
+  induction a generalizing s with
+  | nil => simp [trace, run]
+  | cons e r ih => simp [trace, run_cons, ih]
+
+theorem trace_obs (md : Mode) (s : St) (evs : List Ev) :
+    ((trace md s evs).map (fun t => t.2.1)).flatten = (run md s evs).2 := by
+  induction evs generalizing s with
+  | nil => simp [trace, run]
+  | cons e r ih => simp [trace, run_cons, ih]
+
+theorem trace_length (md : Mode) (s : St) (evs : List Ev) : (trace md s evs).length = evs.length := by
+  induction evs generalizing s with
+  | nil => rfl
+  | cons e r ih => simp [trace, ih]
+
 theorem run_split (md : Mode) (s : St) (pre : List Ev) (e : Ev) (post : List Ev) :
     (run md s (pre ++ e :: post)).1 = (run md (exec md (run md s pre).1 e).1 post).1 := by
   rw [run_append, run_cons]
